@@ -205,8 +205,13 @@ fn oracle_params(ctx: &mut Ctx, class: &str, strict_pd: bool, x: &Array2<f64>, r
             ctx.require(cj[[a, a]] >= reg * (1.0 - 1e-12), "cov_diag_ge_reg", class, || format!("covariance {} diagonal {} = {:e} < reg {:e}", j, a, cj[[a, a]], reg));
         }
         let lm = lambda_min(&cj);
-        // v'Σv >= reg |v|^2 for every M-step; strictly positive for a fitted model (Cholesky accepted it)
-        ctx.require((!strict_pd || lm > 0.0) && lm >= reg * (1.0 - 1e-9) - 1e-12 * scale, "cov_pd", class, || format!("covariance {} smallest eigenvalue {:e}, reg {:e}", j, lm, reg));
+        // v'Σv >= reg |v|^2 for every M-step (theorem cov_pd) ...
+        ctx.require(lm >= reg * (1.0 - 1e-9) - 1e-12 * scale, "cov_pd", class, || format!("covariance {} smallest eigenvalue {:e}, reg {:e}, scale {:e}", j, lm, reg, scale));
+        // ... and strictly positive definite for a fitted model (its Cholesky factorisation was accepted).
+        // An eigenvalue within the resolution of this oracle (64 eps * largest entry) of zero means the returned covariance is singular to working precision.
+        if strict_pd && lm <= 64.0 * f64::EPSILON * scale && lm >= -1e-12 * scale {
+            ctx.fail("cov_pd_singular", class, format!("fit returned a covariance that is singular to working precision: component {} smallest eigenvalue {:e}, largest entry {:e}, reg {:e}; data {:?}", j, lm, scale, reg, if x.len() <= 36 { x.rows().into_iter().map(|r| r.to_vec()).collect::<Vec<_>>() } else { vec![] }));
+        }
         if let Some(p) = prec {
             let pj = p.index_axis(Axis(0), j).to_owned();
             let prod = pj.dot(&cj);
@@ -437,13 +442,20 @@ fn one_instance(em: &mut Em, rng: &mut Rng, big: bool) {
     let d = 1 + rng.below(6);
     let k = 1 + rng.below(if big { 6 } else { 4 });
     let per = if big { 10 + rng.below(30) } else { 6 + rng.below(12) };
-    let b = gen_blobs(rng, d, k, per);
+    let mut b = gen_blobs(rng, d, k, per);
+    let rank_def = rng.chance(1, 25);
+    if rank_def {
+        // at most d points for one component and no regularisation: the exact covariance is singular
+        let m = 2 + rng.below(d);
+        b.x = b.x.slice(ndarray::s![..m.min(b.x.nrows()), ..]).to_owned();
+        b.kind = "rank_deficient";
+    }
     let x = b.x;
-    let k_fit = if rng.chance(1, 6) { (k + rng.below(2) + 1).min(x.nrows()) } else { k };
+    let k_fit = if rank_def { 1 } else if rng.chance(1, 6) { (k + rng.below(2) + 1).min(x.nrows()) } else { k };
     let cfg = FitCfg {
         k: k_fit,
         init: if rng.coin() { GmmInitMethod::KMeans } else { GmmInitMethod::Random },
-        reg: *rng.pick(&[0.0, 1e-6, 1e-6, 1e-3, 0.1, 1.0]),
+        reg: if rank_def { 0.0 } else { *rng.pick(&[0.0, 1e-6, 1e-6, 1e-3, 0.1, 1.0]) },
         tol: *rng.pick(&[1e-2, 1e-3, 1e-3, 1e-6]),
         runs: *rng.pick(&[1, 1, 2, 3]),
         iters: *rng.pick(&[1, 4, 30, 100, 100, 100, 300, 300]),
@@ -468,7 +480,7 @@ fn one_instance(em: &mut Em, rng: &mut Rng, big: bool) {
         cfg.iters,
         cfg.seed
     );
-    let class = format!("fit:init={}:data={}", init_s, b.kind);
+    let class = format!("fit:init={}:data={}:reg={}", init_s, b.kind, if cfg.reg == 0.0 { "0" } else { "pos" });
     let mut outcome = String::new();
     em.case_valid(op, &class, |ctx| match &res {
         Err(_) => panic!("fit panicked"),
@@ -626,7 +638,7 @@ fn proba_synthetic(em: &mut Em, rng: &mut Rng) {
 }
 
 pub fn run(em: &mut Em, rng: &mut Rng) {
-    let (fits, msteps, synth) = if em.thorough() { (1500, 1500, 600) } else { (160, 300, 100) };
+    let (fits, msteps, synth) = if em.thorough() { (5000, 5000, 2000) } else { (500, 800, 300) };
     let deep = em.thorough();
     for i in 0..fits {
         one_instance(em, rng, deep && i % 4 == 0);
